@@ -65,7 +65,7 @@ static void do_packint(const char *op, const uint8_t *b, int n)
 }
 static void do_packbytes(int n, int data)
 {
-	uint8_t src[256];
+	static uint8_t src[1 << 17];
 	for (int i = 0; i < n; i++) src[i] = (uint8_t)(((i + 1) * 16 + 1) % 256);
 	rf_pack_bytes(&pk, data ? src : NULL, n);
 	printf("{\"e\":\"PackBytes\",\"a\":[%d,\"%s\"],\"r\":[]", n, data ? "data" : "null");
@@ -154,8 +154,25 @@ static void sweep32(int nrandom)
 		do_unpack("UnpackU32le");
 	}
 }
+/* items far larger than the buffer: the counters must keep counting every requested byte (scope: total < 2^31) */
+static void huge(void)
+{
+	static const int big[] = { 65535, 65536, 65537, 70000, 131071 };
+	for (int i = 0; i < 5; i++) {
+		reset(i);
+		do_packbytes(big[i], 0); do_packbytes(3, 1);
+		uint8_t b[2] = { 1, 2 }; do_packint("PackU16le", b, 2);
+		do_rewind();
+		do_unpackbytes(big[i], 0); do_unpack("UnpackU16le"); do_unpackbytes(2, 1);
+		reset(8);
+		do_packbytes(big[i], 1);
+		do_rewind();
+		do_unpack("UnpackU32le");
+	}
+}
 static void randomseq(int nexec, int nops)
 {
+	huge();
 	static const char *un[] = { "UnpackChar", "UnpackS8", "UnpackU8", "UnpackU16le", "UnpackU32le" };
 	for (int x = 0; x < nexec; x++) {
 		reset(drv_below(4) ? drv_below(24) : drv_below(65));
@@ -164,11 +181,11 @@ static void randomseq(int nexec, int nops)
 			uint8_t b[8];
 			for (int i = 0; i < 8; i++) b[i] = drv_below(3) ? drv_rand() : (drv_below(2) ? 0xff : 0x80);
 			switch (drv_below(12)) {
-			case 0: do_packbytes(drv_below(9), drv_below(2)); break;
+			case 0: do_packbytes(drv_below(4) ? drv_below(9) : 9 + drv_below(16), drv_below(2)); break;
 			case 1: do_packbytesv(b, drv_below(9)); break;
 			case 2: case 3: do_packint(ops16[drv_below(3)], b, 2); break;
 			case 4: case 5: do_packint(ops32[drv_below(2)], b, 4); break;
-			case 6: do_unpackbytes(drv_below(9), drv_below(4) != 0); break;
+			case 6: do_unpackbytes(drv_below(5) ? drv_below(9) : 9 + drv_below(16), drv_below(4) != 0); break;
 			case 7: case 8: case 9: do_unpack(un[drv_below(5)]); break;
 			case 10: do_rewind(); break;
 			case 11: do_unpack("UnpackU32le"); break;
